@@ -56,6 +56,7 @@ mod hooks;
 mod metrics;
 pub mod reexports;
 
+#[cfg_attr(deadpool_verif, allow(unused_imports))]
 use std::{
     collections::VecDeque,
     fmt,
@@ -73,6 +74,7 @@ use std::{
 use std::time::Instant;
 
 use deadpool_runtime::Runtime;
+#[cfg_attr(deadpool_verif, allow(unused_imports))]
 use tokio::sync::{Semaphore, TryAcquireError};
 
 pub use crate::Status;
@@ -287,12 +289,25 @@ impl<M: Manager, W: From<Object<M>>> Pool<M, W> {
         Self {
             inner: Arc::new(PoolInner {
                 manager: builder.manager,
+                #[cfg(deadpool_verif)]
+                slots: crate::verif::Mutex::new(Slots {
+                    vec: VecDeque::with_capacity(builder.config.max_size),
+                    size: 0,
+                    max_size: builder.config.max_size,
+                }),
+                #[cfg(deadpool_verif)]
+                users: crate::verif::AtomicUsize::new(0),
+                #[cfg(deadpool_verif)]
+                semaphore: crate::verif::Semaphore::new(builder.config.max_size),
+                #[cfg(not(deadpool_verif))]
                 slots: Mutex::new(Slots {
                     vec: VecDeque::with_capacity(builder.config.max_size),
                     size: 0,
                     max_size: builder.config.max_size,
                 }),
+                #[cfg(not(deadpool_verif))]
                 users: AtomicUsize::new(0),
+                #[cfg(not(deadpool_verif))]
                 semaphore: Semaphore::new(builder.config.max_size),
                 config: builder.config,
                 hooks: builder.hooks,
@@ -589,15 +604,50 @@ impl<M: Manager, W: From<Object<M>>> Pool<M, W> {
     pub fn manager(&self) -> &M {
         &self.inner.manager
     }
+
+    /// Read-only snapshot of the internal counters (verification builds
+    /// only). Returns `None` while the slots lock is held.
+    #[cfg(deadpool_verif)]
+    pub fn verif_snapshot(&self) -> Option<crate::verif::ManagedSnapshot> {
+        let slots = self.inner.slots.try_lock_silent().ok()?;
+        Some(crate::verif::ManagedSnapshot {
+            permits: self.inner.semaphore.available_permits(),
+            closed: self.inner.semaphore.is_closed_silent(),
+            size: slots.size,
+            max_size: slots.max_size,
+            idle: slots.vec.len(),
+            users: self.inner.users.load_silent(),
+        })
+    }
+
+    /// Ids of the shim objects `(slots, users, semaphore)` (verification
+    /// builds only).
+    #[cfg(deadpool_verif)]
+    pub fn verif_ids(&self) -> (u64, u64, u64) {
+        (
+            self.inner.slots.id(),
+            self.inner.users.id(),
+            self.inner.semaphore.id(),
+        )
+    }
 }
 
 struct PoolInner<M: Manager> {
     manager: M,
+    #[cfg(deadpool_verif)]
+    slots: crate::verif::Mutex<Slots<ObjectInner<M>>>,
+    #[cfg(deadpool_verif)]
+    users: crate::verif::AtomicUsize,
+    #[cfg(deadpool_verif)]
+    semaphore: crate::verif::Semaphore,
+    #[cfg(not(deadpool_verif))]
     slots: Mutex<Slots<ObjectInner<M>>>,
     /// Number of available [`Object`]s in the [`Pool`]. If there are no
     /// [`Object`]s in the [`Pool`] this number can become negative and store
     /// the number of [`Future`]s waiting for an [`Object`].
+    #[cfg(not(deadpool_verif))]
     users: AtomicUsize,
+    #[cfg(not(deadpool_verif))]
     semaphore: Semaphore,
     config: PoolConfig,
     runtime: Option<Runtime>,
